@@ -108,6 +108,7 @@ type obs struct {
 	seq        []int64
 	err        int
 	terminated bool
+	ci         int64 // CompletedIndex after Close (full runs), -1 otherwise
 }
 
 // run drives the implementation; everything happens in a goroutine watched by a deadline.
@@ -151,7 +152,9 @@ func run(g *graph, reqs []int64, mode, k int) obs {
 				o.err = 1
 			}
 			ord.Close()
+			o.ci = int64(ord.CompletedIndex) // after Close: the producer has returned
 		} else {
+			o.ci = -1
 			for i := 0; i < k && ord.Next(); i++ {
 				o.seq = append(o.seq, int64(ord.RelationID()))
 			}
@@ -215,6 +218,7 @@ func runBlocked(g *graph, reqs []int64, x int64) obs {
 		if ord.Err() != nil {
 			o.err = 1
 		}
+		o.ci = -1
 		res <- o
 	}()
 	select {
@@ -228,7 +232,7 @@ func runBlocked(g *graph, reqs []int64, x int64) obs {
 	case <-time.After(2 * time.Second):
 		hung++
 		close(src.gate) // let the leaked goroutines go
-		return obs{terminated: false, err: 1}
+		return obs{terminated: false, err: 1, ci: -1}
 	}
 }
 
@@ -255,6 +259,7 @@ func runPair(gA *graph, reqsA []int64, holdA int64, gB *graph, reqsB []int64) (o
 			o.err = 1
 		}
 		ord.Close()
+		o.ci = int64(ord.CompletedIndex)
 		return o
 	}
 	toIDs := func(l []int64) []osm.RelationID {
@@ -663,9 +668,9 @@ func mkCaseObs(g *graph, reqs []int64, mode, k int, o obs) *wire.Case {
 		dn = append(dn, map[string]interface{}{"id": n.id, "datasource_error": n.kind != 0, "versions_members": dv})
 	}
 	c.Ints(reqs).Int(int64(mode)).Int(int64(k))
-	c.Ints(o.seq).Int(int64(o.err)).Bool(o.terminated)
+	c.Ints(o.seq).Int(int64(o.err)).Bool(o.terminated).Int(o.ci)
 	c.Desc = map[string]interface{}{"relations": dn, "requested": reqs, "mode": []string{"run to the end", "Close after k Next", "cancel after k Next", "Close while the datasource is inside the lookup of relation k (it returns only when its context is done)"}[mode], "k": k,
-		"emitted": o.seq, "err_class": o.err, "terminated": o.terminated}
+		"emitted": o.seq, "err_class": o.err, "terminated": o.terminated, "completed_index": o.ci}
 	c.OracleFail = oracle(g, reqs, mode, o)
 	c.Trivial = len(g.nodes) < 2
 	return c
@@ -836,11 +841,12 @@ func main() {
 		d := c.Desc.(map[string]interface{})
 		if seq := d["emitted"].([]int64); len(seq) >= 2 && c.OracleFail == "" {
 			plant(i, func(c *wire.Case) {
-				p := len(c.Toks) - 2 - len(seq)
+				p := len(c.Toks) - 3 - len(seq)
 				c.Toks[p], c.Toks[p+1] = c.Toks[p+1], c.Toks[p]
 			})
-			plant(i, func(c *wire.Case) { c.Toks[len(c.Toks)-1] = 0 }) // "did not terminate"
-			plant(i, func(c *wire.Case) { c.Toks[len(c.Toks)-2] = 2 }) // error class
+			plant(i, func(c *wire.Case) { c.Toks[len(c.Toks)-2] = 0 })  // "did not terminate"
+			plant(i, func(c *wire.Case) { c.Toks[len(c.Toks)-3] = 2 })  // error class
+			plant(i, func(c *wire.Case) { c.Toks[len(c.Toks)-1] += 2 }) // CompletedIndex + 1
 			break
 		}
 	}
